@@ -281,3 +281,55 @@ impl ToStringSpec for Uuid {
 pub fn pathbuf_from_str(s: &str) -> (r: PathBuf)
     ensures r@ == s@,
 { unimplemented!() }
+
+// ---- restoring: further argument shapes of the file-system stand-ins -------------------------------
+impl AsRefPath for &PathBuf {
+    open spec fn pv(&self) -> Seq<char> { (*self)@ }
+    #[verifier::external_body]
+    fn as_ref(&self) -> (r: &Path) { unimplemented!() }
+}
+impl AsRefBytes for &Vec<u8> {
+    open spec fn bv(&self) -> Seq<u8> { (*self)@ }
+    #[verifier::external_body]
+    fn as_ref(&self) -> (r: &[u8]) { unimplemented!() }
+}
+impl PathLike for &&PathBuf { open spec fn pv(&self) -> Seq<char> { (**self)@ } }
+
+/// R20: `vfs::write(path, contents)` = tokio::fs::write (tokio-1.x src/fs/write.rs → std::fs::write:
+/// create or truncate, then write the whole buffer).  Ok: the file holds exactly the buffer; Err: only
+/// that path may have changed.
+#[verifier::external_body]
+pub fn vfs_write<P: PathLike, B: BytesLike>(fs: &mut Fs, path: P, contents: B) -> (r: Result<()>)
+    ensures
+        files_same_except(old(fs)@, final(fs)@, path.pv()),
+        final(fs)@.dirs == old(fs)@.dirs,
+        r is Ok ==> final(fs)@.files.contains_key(path.pv()) && final(fs)@.files[path.pv()] == contents.bytes(),
+{ unimplemented!() }
+
+/// R12: `$a == $b` for `$a, $b: &str` (core::str PartialEq: same characters)
+#[verifier::external_body]
+pub fn str_eq(a: &str, b: &str) -> (r: bool)
+    ensures r == (a@ == b@),
+{ a == b }
+
+/// R12: `$v.iter().find(|x| $body)` on a Vec (core::slice::Iter + Iterator::find): the first element
+/// for which the closure returns true
+pub fn vec_iter_find<'a, T, F: Fn(&T) -> bool>(v: &'a Vec<T>, f: F) -> (r: Option<&'a T>)
+    requires forall|x: &T| call_requires(f, (x,)),
+    ensures
+        r matches Some(x) ==> exists|i: int| 0 <= i < v@.len() && *x == v@[i] && call_ensures(f, (&v@[i],), true),
+        r is None ==> forall|i: int| 0 <= i < v@.len() ==> call_ensures(f, (&#[trigger] v@[i],), false),
+{
+    let mut i: usize = 0;
+    while i < v.len()
+        invariant
+            i <= v@.len(),
+            forall|x: &T| call_requires(f, (x,)),
+            forall|j: int| 0 <= j < i ==> call_ensures(f, (&#[trigger] v@[j],), false),
+        decreases v@.len() - i,
+    {
+        if f(&v[i]) { return Some(&v[i]); }
+        i += 1;
+    }
+    None
+}
